@@ -76,6 +76,7 @@ V_FREES(hash->ctx)
 V_GHOST_LH(3, hash, NULL, 0)
 V_ENSURES((hash->ctx == NULL && hash->type == NULL) || (__CPROVER_return_value == NULL && SPEC_HASH_VALID(LIBSHA_TYPE_OLD(hash)) && hash->ctx == V_OLD(hash->ctx) && hash->type == V_OLD(hash->type))) /*@C18.lib_hash_final.closes_hash_unless_out_of_memory*/
 V_ENSURES(__CPROVER_return_value == NULL || SPEC_HASH_VALID(LIBSHA_TYPE_OLD(hash))) /*@C18.lib_hash_final.only_known_types*/
+V_ENSURES(__CPROVER_return_value == NULL || zck == NULL || zck->error_state == V_OLD(zck->error_state)) /*@C12.lib_hash_final.success_keeps_error_state*/
 V_ENSURES(__CPROVER_return_value == NULL || __CPROVER_is_fresh(__CPROVER_return_value, SPEC_ALLOC_DIGEST(LIBSHA_TYPE_OLD(hash)))) /*@C18.lib_hash_final.digest_buffer_of_the_algorithm_size*/
 V_ENSURES(__CPROVER_return_value == NULL || (g_fin_calls == V_OLD(g_fin_calls) + 1 && g_fin_fn == LIBSHA_FN(LIBSHA_TYPE_OLD(hash)) && g_fin_ctx == V_OLD(hash->ctx) && g_fin_md == (const void *)__CPROVER_return_value)) /*@C18.lib_hash_final.dispatch_per_type_digest_written_into_result*/
 V_ENSURES(__CPROVER_return_value == NULL || (unsigned char)__CPROVER_return_value[g_k1 % SPEC_ALLOC_DIGEST(LIBSHA_TYPE_OLD(hash))] == g_fin_byte) /*@C18.lib_hash_final.result_is_the_algorithm_output_unmodified*/
